@@ -767,22 +767,6 @@ class loader( reader ):
                         break
 
                     # We got a non-None <ts>,<js>; if we aren't exhausted, we're now streaming!
-                    if self._strict:
-                        # But first, carefully release self._strict.  If we opened a file, we'll set
-                        # _strict.  The last file's final timestamp will be in self._ts; say it's
-                        # "2014-04-01 00:00:00", and there was increasing data in it, so
-                        # self._strict is false, and we just opened a new file, and its first and
-                        # only record also has timestamp "2014-04-01 00:00:01"; thus ts > self._ts;
-                        # So, do we want to release self._strict here?  No, because we'd re-open the
-                        # same file next time!  Therefore, we have to see ts > self._ts and
-                        # self.state isn't INITIAL/SWITCHING (eg. we've already seen records from
-                        # the file ).  The state cannot tell us that: if the file's first record was still
-                        # in the future when the file was opened, we are AWAITING by the time we see it.
-                        if self._seen and ( self._ts is None or ts > self._ts ):
-                            log.debug( "%s Playback releasing strict for next open: %s > %s", self, ts, self._ts )
-                            self._strict	= False
-                    self._seen		= True
-
                     if self.state in (self.INITIAL, self.SWITCHING, self.AWAITING):
                         self.state	= self.STREAMING
 
@@ -820,6 +804,21 @@ class loader( reader ):
                         # A new value; if <ts> is monotonic and increasing, append <ts>,<regs> to
                         # future and generate an event with <ts>,<data>; otherwise, log/ignore it.
                         if self._ts is None or ts >= self._ts:
+                            if self._strict:
+                                # Carefully release self._strict.  If we opened a file, we'll set
+                                # _strict.  The last file's final timestamp will be in self._ts; say
+                                # it's "2014-04-01 00:00:00", and we just opened a new file, and its
+                                # first and only record has timestamp "2014-04-01 00:00:01"; thus ts
+                                # > self._ts; So, do we want to release self._strict here?  No,
+                                # because we'd re-open the same file next time!  Therefore, we have
+                                # to see ts > self._ts in a record that is not the first one accepted
+                                # from the file.  Only a record that advances self._ts may release
+                                # it: a corrupt record or a note with a later timestamp leaves _ts
+                                # behind, and a non-strict open would select this same file again.
+                                if self._seen and ( self._ts is None or ts > self._ts ):
+                                    log.debug( "%s Playback releasing strict for next open: %s > %s", self, ts, self._ts )
+                                    self._strict = False
+                            self._seen	= True
                             self._ts	= ts
                             events.append( {
                                 'timestamp':	ts,
